@@ -33,8 +33,12 @@ def run(tier, rep):
     with Pool() as pool:
         st = run_family(pool, fam_jobs, JUDGE)
         report(rep, "threaded_family_d0", st, 0, JUDGE, family=True)
-        out = explore_many(pool, deep, bound, JUDGE)
-        report(rep, "threaded_schedules", out, bound, JUDGE)
+        out = explore_many(pool, deep, 1, JUDGE)
+        report(rep, "threaded_schedules_d1", out, 1, JUDGE)
+        if tier == "thorough":
+            d2 = {k: v for k, v in deep.items() if k[0] in ("L1", "L2") and k[1] in ("Rss.", "rr.", "Ros.")}
+            out = explore_many(pool, d2, 2, JUDGE)
+            report(rep, "threaded_schedules_d2", out, 2, JUDGE)
         st = run_family(pool, jit_jobs, JUDGE, chunk=1)
         report(rep, "threaded_jit_step_io_callback", st, 0, JUDGE, family=True)
         from vf.props import c06_compiled
